@@ -127,6 +127,7 @@ VStep(M, locals, results, st, ins) ==
       [] op = "return" -> Unreach(PopAll(st, results))
       [] op = "call" ->
            IF ins[2] >= NFuncs(M) THEN Fail(st, "function index")
+           ELSE IF TypeIdxOf(M, ins[2]) >= Len(M.types) THEN Fail(st, "callee type index")
            ELSE LET ty == M.types[TypeIdxOf(M, ins[2]) + 1] IN Push(PopAll(st, ty.p), ty.r)
       [] op = "call_indirect" ->
            IF ~HasTable(M) \/ ins[3] # 0 THEN Fail(st, "no table")
@@ -215,6 +216,7 @@ ModuleErr(M) ==
                      ELSE IF nmem = 0 THEN "data segment without memory" ELSE ConstErr(M, M.data[j].offset, "i32")]
         startErr == IF M.start < 0 THEN ""
                     ELSE IF M.start >= NFuncs(M) THEN "start function index"
+                    ELSE IF TypeIdxOf(M, M.start) >= Len(M.types) THEN "start function type index"
                     ELSE LET ty == M.types[TypeIdxOf(M, M.start) + 1] IN IF ty.p = <<>> /\ ty.r = <<>> THEN "" ELSE "start function type"
         funcErr == [j \in 1..Len(M.funcs) |-> FuncErr(M, j)]
     IN  IF ~typesOK THEN "function type"
